@@ -40,7 +40,7 @@ CLAIMED.update({
  "C17": dict(engine="cli-sim", category="fault_enumeration", ref="DESIGN.md 4.7",
    technique="deterministic simulation of whole process runs of the real binary: generated program/library files, working directory, path spelling, layout and file-level faults, one injected failing form; oracle = marker model + in-process evaluation of the same text",
    text="Each run launches the real ruschm binary (built from /repo) with an empty environment and a hash seed supplied through an LD_PRELOAD shim, over a generated world: program of 3-25 items that display marker-bracketed values, sibling libraries that print at load time, decoy libraries in unrelated working directories, four working directories x four path spellings, LF/CRLF, with or without final newline; two thirds of the runs contain exactly one failing form (run-time, syntax, import), a sixth a file-level fault (missing, directory, empty, invalid UTF-8, truncated); further: a working directory removed before the program starts, the program arriving through a named pipe, an interpreter line first, file names with spaces or other scripts, long definitions of multi-byte characters, bare value expressions, FILE spelled through a missing directory or a symbolic link; either load order of one declaration's import sets is accepted. Checked: marker sequence up to the failing form and nothing after, exit status, one diagnostic line PATH[:L:C] MESSAGE on stderr, byte-identical stdout / same message / same location as the in-process evaluation.",
-   note="Trusted: marker model, ANSI stripping, the in-process run as rendering reference. Write errors on stdout and signals are not injected."),
+   note="Trusted: marker model, ANSI stripping, the in-process run as rendering reference. Write errors on stdout and signals are not injected. Known gap (seeded change C17-19, DESIGN.md 13 round 10): program texts contain no string literal crossing a line end with blanks before the newline, so a reader that trims line ends is not noticed."),
  "C18": dict(engine="repl-sim", category="fault_enumeration", ref="DESIGN.md 4.8",
    technique="deterministic simulation of REPL sessions: a simulated user types generated lines into the real binary over a pipe in lock-step (FIONREAD + /proc/PID/syscall), several line splittings per sequence, EOF injected after a random line; oracle = nesting-depth judge + per-line output attribution + in-process transcript",
    text="Sessions of 3-20 submissions typed under three different line splittings each (breaks only inside forms, blank/whitespace/comment-only lines, trailing comments with parentheses, literals containing parentheses and semicolons in a third of the cases), one line at a time, waiting after each line until the child has consumed it and blocks in read(0). After a line that completes nothing, nothing may be printed; after a completing line stderr must carry exactly the message and stdout everything up to the last newline; the final transcript equals the in-process evaluation of the forms one after another (each form by itself, only the last value of a submission shown); transcripts agree across splittings; EOF after any line ends the session cleanly and input whose lists never closed produces no output. Sessions include string literals typed across two lines, literals containing parentheses and semicolons, vector literals, lines longer than a pipe buffer, macro definitions (also with an ellipsis) and uses, values of many kinds incl. ones printing as several lines or ending in a line break, effectful submissions ending in a surplus parenthesis or a dangling quote mark, a bar identifier ending in a backslash, and occasional sessions of 150-260 submissions.",
